@@ -34,8 +34,25 @@ inline std::vector<std::string> SplitOn(const std::string & p, char sep)
    while(true) {size_t j = p.find(sep, i); v.push_back(p.substr(i, (j == std::string::npos) ? j : (j-i))); if (j == std::string::npos) break; i = j+1;}
    return v;
 }
+// whole-clause numeric range "<lo-hi>", "<n>", "<lo->", "<-hi>", comma-separated: the name must start with a digit and its leading decimal number lie in one of the ranges
+inline bool RangeClauseMatch(const std::string & pat, const std::string & s)
+{
+   if ((s.empty())||(s[0] < '0')||(s[0] > '9')) return false;
+   unsigned long long id = 0; for (char c : s) {if ((c < '0')||(c > '9')) break; id = id*10 + (unsigned long long)(c-'0'); if (id > 0xffffffffULL) break;}
+   id &= 0xffffffffULL;
+   for (auto & cl : SplitOn(pat.substr(1, pat.size()-2), ','))
+   {
+      if (cl.empty()) continue;
+      unsigned long long lo = 0, hi = 0xffffffffULL; const size_t d = cl.find('-');
+      auto num = [](const std::string & t, unsigned long long dflt) {unsigned long long v = 0; bool any = false; for (char c : t) if ((c >= '0')&&(c <= '9')) {v = v*10 + (unsigned long long)(c-'0'); any = true;} return any ? v : dflt;};
+      if (d == std::string::npos) lo = hi = num(cl, 0); else {lo = num(cl.substr(0, d), 0); hi = num(cl.substr(d+1), 0xffffffffULL);}
+      if ((id >= lo)&&(id <= hi)) return true;
+   }
+   return false;
+}
 inline bool ClauseMatch(const std::string & pat, const std::string & s)
 {
+   if ((pat.size() >= 3)&&(pat[0] == '<')&&(pat[pat.size()-1] == '>')&&(pat.find('>') == pat.size()-1)) return RangeClauseMatch(pat, s);
    if ((pat.size() >= 2)&&(pat[0] == '(')&&(pat[pat.size()-1] == ')'))
    {
       for (auto & alt : SplitOn(pat.substr(1, pat.size()-2), '|')) if (Glob(alt.c_str(), s.c_str())) return true;
